@@ -583,6 +583,8 @@ def parse_units(s) :
     s = s.strip()
     if s == "" :
         return Units(UnitsSystem(), UnitsDimensions())
+    if any(c.isspace() for c in s) :
+        raise ValueError("unexpected whitespace inside the units \""+s+"\".")
 
     def get_unit_type(unitstr) :
         for k in _units_labels_dict.keys() :
